@@ -2,9 +2,9 @@ package harness
 
 import (
 	"bytes"
-	"runtime/debug"
 	"fmt"
 	"math"
+	"runtime/debug"
 
 	"verifsim/reftable"
 	"verifsim/simrt"
